@@ -5,9 +5,9 @@ from bumble import core, crypto, hci, smp
 from bumble.crypto import builtin as cb
 from bumble.crypto import cryptography as cc
 from pyvc import ext_c14  # noqa: F401  (engine extensions: XOR normal form, ...)
-from pyvc.contracts import (NATIVE_UF, Any, Bool, Bytes, BytesN, Callback, Inst, Int, IntRange, OneOf, Opt, contract, iff,
+from pyvc.contracts import (NATIVE_UF, Any, Bool, Bytes, BytesN, Callback, Const, Inst, Int, IntRange, OneOf, Opt, contract, iff,
                             implies, lemma, model, at, ite, ufb)
-from spec.crypto import (AES, CMAC, P256_A, P256_B, P256_P, shift_spec, ah_be, bxor, c1_be, cmac_rfc, dbl, e_be, f4_be, f5_be, f6_be, g2_be, h6_be,
+from spec.crypto import (AES, CMAC, P256_A, P256_B, P256_P, shift_spec, ah_be, bxor, c1_be, cbc_chain, cmac_rfc, cmac_rfc_any, dbl, e_be, f4_be, f5_be, f6_be, g2_be, h6_be,
                          h7_be, on_p256, rev, s1_be)
 
 ENVIRONMENT = [
@@ -225,19 +225,135 @@ BUILTIN['inline'] = [p for p in BUILTIN['inline'] if not p.endswith('_shift_byte
 BUILTIN['uses'] = BUILTIN['uses'] + ['bumble.crypto.builtin:_shift_bytes@spec']
 
 
+# --- _CBC.encrypt: CBC chaining over a whole number of blocks (block loop: invariant over cbc_chain)
+model('bumble.crypto.builtin:_CBC', fields=dict(_last_cipher_block=BytesN(16), _aes=Inst('bumble.crypto.builtin:_AES')))
+
+
+def cbc_encrypt_post(self, plaintext, res, old):
+    k, iv = self._aes.k, old.self._last_cipher_block
+    out = [len(res) == len(plaintext), self._last_cipher_block == cbc_chain(k, iv, plaintext)]
+    if len(plaintext) >= 16:
+        # the last ciphertext block is the chaining value after all blocks ...
+        out.append(res[len(res) - 16 :] == cbc_chain(k, iv, plaintext))
+    if len(plaintext) >= 32:
+        # ... and the one before it the chaining value after all blocks but the last
+        out.append(res[len(res) - 32 : len(res) - 16] == cbc_chain(k, iv, plaintext[: len(plaintext) - 16]))
+    return out
+
+
+def cbc_encrypt_inv(self, plaintext, cipher_text, _it, old):
+    k, iv = self._aes.k, old.self._last_cipher_block
+    out = [
+        0 <= _it,
+        _it % 16 == 0,
+        _it <= len(plaintext),
+        len(cipher_text) == _it,
+        self._last_cipher_block == cbc_chain(k, iv, plaintext[:_it]),
+    ]
+    if _it >= 16:
+        out.append(cipher_text[len(cipher_text) - 16 :] == cbc_chain(k, iv, plaintext[:_it]))
+    if _it >= 32:
+        out.append(cipher_text[len(cipher_text) - 32 : len(cipher_text) - 16] == cbc_chain(k, iv, plaintext[: _it - 16]))
+    return out
+
+
+contract(
+    'bumble.crypto.builtin:_CBC.encrypt',
+    prop='C14',
+    params=dict(self=Inst('bumble.crypto.builtin:_CBC'), plaintext=Bytes),
+    requires=lambda self, plaintext: [len(self._aes.k) == 16, len(plaintext) % 16 == 0],
+    ensures=cbc_encrypt_post,
+    modifies=['self._last_cipher_block'],
+    invariants={0: cbc_encrypt_inv},
+    decreases={0: lambda plaintext, _it: len(plaintext) - _it},
+    inline=['bumble.crypto.builtin:_xor'],
+    uses=['bumble.crypto.builtin:_AES.encrypt@spec'],
+    note='any number of blocks: after the loop the chaining value is cbc_chain(key, iv, plaintext) (RFC 4493 2.4 step 6)',
+)
+
+# --- _CMAC._update: one call of the CBC layer on block-aligned data; keeps the last ciphertext block and
+#     the last plaintext block XOR the ciphertext block before it (what digest() needs for a complete last block)
+model(
+    'bumble.crypto.builtin:_CMAC',
+    fields=dict(_block_size=Const(16), _cbc=Inst('bumble.crypto.builtin:_CBC'), _last_ct=BytesN(16), _last_pt=Any),
+)
+
+
+def update_last_ct(self, data_block, old):
+    if len(data_block) == 0:
+        return old.self._last_ct
+    return cbc_chain(self._cbc._aes.k, old.self._last_ct, data_block)
+
+
+def update_last_pt(self, data_block, old):
+    if len(data_block) == 0:
+        return old.self._last_pt
+    return bxor(cbc_chain(self._cbc._aes.k, old.self._last_ct, data_block[: len(data_block) - 16]), data_block[len(data_block) - 16 :])
+
+
+contract(
+    'bumble.crypto.builtin:_CMAC._update',
+    prop='C14',
+    params=dict(self=Inst('bumble.crypto.builtin:_CMAC'), data_block=Bytes),
+    # representation invariant of _CMAC: _last_ct is the chaining value of the CBC layer
+    requires=lambda self, data_block: [len(self._cbc._aes.k) == 16, len(data_block) % 16 == 0, self._last_ct == self._cbc._last_cipher_block],
+    assigns={'self._last_ct': update_last_ct, 'self._last_pt': update_last_pt},
+    ensures=lambda self: [self._cbc._last_cipher_block == self._last_ct],
+    modifies=['self._last_ct', 'self._last_pt', 'self._cbc._last_cipher_block'],
+    uses=['bumble.crypto.builtin:_CBC.encrypt'],
+    inline=['bumble.crypto.builtin:_xor'],
+    note='block-aligned data of any length',
+)
+
+BUILTIN_ANY = dict(BUILTIN)
+BUILTIN_ANY['inline'] = [p for p in BUILTIN['inline'] if p != '_CBC.*'] + ['_CBC.__init__']
+BUILTIN_ANY['uses'] = BUILTIN['uses'] + ['bumble.crypto.builtin:_CMAC._update']
+
+
+def lemma_builtin_cmac_any(head, tail, k):
+    # every message is head || tail with head a whole number of blocks and 0 <= len(tail) <= 15
+    m = head + tail
+    assert cb.aes_cmac(m, k) == cmac_rfc_any(k, m)
+
+
+lemma(
+    'builtin_cmac_any_length',
+    lemma_builtin_cmac_any,
+    params=dict(head=Bytes, tail=OneOf(*[BytesN(r) for r in range(16)]), k=BytesN(16)),
+    # _CMAC refuses more than 2**48 blocks (InvalidArgumentError in digest)
+    requires=lambda head, tail: [len(head) % 16 == 0, len(head) + len(tail) <= 16 * 2**48],
+    note='built-in AES-CMAC == RFC 4493 for every message length (case split on len mod 16; the block loop is '
+    'covered by the loop invariant of _CBC.encrypt) and every content, AES-128 uninterpreted',
+    **BUILTIN_ANY,
+)
+
+
+def lemma_cbc_chain_unfold(k, iv, a, b, c):
+    # the recursive definition of cbc_chain, spelled out for 0, 1, 2 and 3 blocks (sanity of the definition)
+    assert cbc_chain(k, iv, b'') == iv
+    assert cbc_chain(k, iv, a) == AES(k, bxor(iv, a))
+    assert cbc_chain(k, iv, a + b) == AES(k, bxor(AES(k, bxor(iv, a)), b))
+    assert cbc_chain(k, iv, a + b + c) == AES(k, bxor(AES(k, bxor(AES(k, bxor(iv, a)), b)), c))
+
+
+lemma('spec_cbc_chain_unfolds', lemma_cbc_chain_unfold, prop='C14', params=dict(k=BytesN(16), iv=BytesN(16), a=BytesN(16), b=BytesN(16), c=BytesN(16)))
+
+
 def lemma_builtin_cmac(m, k):
     assert cb.aes_cmac(m, k) == cmac_rfc(k, m)
+    # the two forms of the specification (loop of RFC 4493 unrolled / recursive cbc_chain) agree at this length
+    assert cmac_rfc(k, m) == cmac_rfc_any(k, m)
 
 
-# every length through two full blocks + the block boundaries around 3 and 4 blocks + the lengths the
-# Security Manager uses: h6 (4), h7 (16), f5 salt step (32), f5 (53), f4/f6 (65), g2 (80)
-CMAC_LENGTHS = sorted(set(range(0, 35)) | {47, 48, 49, 53, 63, 64, 65, 66, 80})
+# bounded cross-check of the general lemma against the *unrolled* RFC 4493 algorithm at the block
+# boundaries (never counted as a proof for other lengths)
+CMAC_LENGTHS = [0, 1, 15, 16, 17, 31, 32, 33]
 for _n in CMAC_LENGTHS:
     lemma(
         f'builtin_cmac_len{_n:02d}',
         lemma_builtin_cmac,
         params=dict(m=BytesN(_n), k=BytesN(16)),
-        note=f'message length {_n}: all contents, all keys (bounded in length: lengths {CMAC_LENGTHS[0]}..34 and the block boundaries up to 80 are enumerated)',
+        note=f'BOUNDED stand-in (message length {_n} only, all contents and keys): built-in aes_cmac == the unrolled loop of RFC 4493 == the recursive form used by builtin_cmac_any_length',
         **BUILTIN,
     )
 
